@@ -1,9 +1,11 @@
 import Driver.Reach
 import Driver.Conn
+import Driver.Json
 
 def main (args : List String) : IO UInt32 := do
   match args with
   | "reach" :: rest => Driver.reachMain rest
+  | ["json"] => Driver.Json.jsonMain
   | ["conn"] => Driver.Conn.connMain
   | ["connpred"] => Driver.Conn.predMain
   | ["reachsum"] => do Driver.reachSummary; return 0
